@@ -169,12 +169,8 @@ private def fromLdClass (c : Cfg) (rawExp : Nat) (src : Val) : String :=
       if rawExp == 0 then (if reached then "cfloat.from_ieee.subnormal_source" else "")
       else if c.sub && reached && exponent < c.minExpNormal then
         -- the value lies in the target's subnormal range
-        if c.fbits ≥ 63 then "cfloat.from_ld.wide_subnormal_target"
-        else if exponent == c.minExpSubnormal - 1 then "cfloat.from_ld.shift64"
-        else
-          let u := ulpAt c m
-          let q := m / u
-          if q - (q.floor : Rat) == 1/2 && q.floor % 2 == 0 then "cfloat.from_ld.hidden_mask" else ""
+        -- cfloat.from_ld.shift64 and cfloat.from_ld.hidden_mask were repaired in /repo: a recurrence has no class and is a VIOLATION
+        if c.fbits ≥ 63 then "cfloat.from_ld.wide_subnormal_target" else ""
       else if c.sat && c.sup && overflows c m then "cfloat.sat_sup.maxpos_is_inf"
       else ""
   | _ => ""
@@ -392,7 +388,7 @@ def cfloatHandler : Handler := fun lhs rhs => do
           | x, y => x == y)
         return { model := toHex m, specOk := !holdable || ok, reason := "round trip through long double does not return the encoding",
                  cls := match want with
-                   | .nan s => if s then "cfloat.from_ld.nan_masks" else ""
+                   | .nan _ => ""    -- cfloat.from_ld.nan_masks was repaired in /repo (long double NaN masks)
                    | .fin _ x => if x == 0 then "" else
                                  if ieeeVal eb fb nb != want then toLdClass c a else
                                  fromLdClass c ((nb >>> fb) % 2 ^ eb) want
